@@ -282,3 +282,69 @@ def check_prove_grid(prop, tier, repo, verif):
     res['wall_s'] = round(time.time() - t0, 1)
     res['checker_cmd'] = 'tools/provegrid (built against the current tree): %s proofs' % m.group(1)
     return res
+
+
+# (operation, cell) pairs the main transition constraints of this version are NOT documented to pin:
+LEFT_SHIFT_OPS = {'ASSERT', 'EQ', 'ADD', 'MUL', 'AND', 'OR', 'U32AND', 'U32XOR', 'FRIE2F4', 'DROP', 'CSWAP', 'CSWAPW', 'MLOADW', 'MSTORE',
+                  'MSTOREW', 'FMPUPDATE', 'U32ADD3', 'U32MADD', 'SPLIT', 'LOOP', 'REPEAT', 'END', 'DYN'}
+RIGHT_SHIFT_OPS = {'PAD', 'DUP0', 'DUP1', 'DUP2', 'DUP3', 'DUP4', 'DUP5', 'DUP6', 'DUP7', 'DUP9', 'DUP11', 'DUP13', 'DUP15', 'ADVPOP', 'SDEPTH',
+                   'CLK', 'U32SPLIT', 'PUSH'}
+BUS_CELLS = {   # values delivered through a chiplet bus, the op-group table or the advice provider (aux columns / not enforced)
+    'U32AND': ['s0'], 'U32XOR': ['s0'], 'MLOAD': ['s0'], 'MLOADW': ['s0', 's1', 's2', 's3'], 'PUSH': ['s0'], 'ADVPOP': ['s0'],
+    'ADVPOPW': ['s0', 's1', 's2', 's3'], 'HPERM': ['s%d' % i for i in range(12)], 'MRUPDATE': ['s0', 's1', 's2', 's3'],
+    'MSTREAM': ['s%d' % i for i in range(8)], 'PIPE': ['s%d' % i for i in range(8)], 'CALLER': ['s0', 's1', 's2', 's3'],
+}
+
+
+def air_cell_expected(op, cell):
+    """documented reason why perturbing `cell` of the NEXT row after `op` need not violate a main transition constraint"""
+    if cell == 'h0':
+        return 'h0 is a helper of its own row: checked by the transition in which that row is the current one'
+    if cell == 'fmp' and op != 'FMPUPDATE':
+        return 'fmp constancy is carried by the decoder / block stack table, whose constraints this AIR version does not include (only FMPUPDATE pins fmp\')'
+    if cell == 'b1' and op not in RIGHT_SHIFT_OPS:
+        return 'b1\' after a left shift comes from the overflow table (aux column p1); without a shift it is tied through p1 as well'
+    if cell == 's15' and op in LEFT_SHIFT_OPS:
+        return 's15\' after a left shift comes from the overflow table (aux column p1)'
+    if cell in BUS_CELLS.get(op, []):
+        return 'delivered through a chiplet bus / op-group table / advice provider'
+    return None
+
+
+def check_air_cells(prop, tier, repo, verif):
+    t0 = time.time()
+    res = {'unit': 'bounded:air_cell_coverage', 'engine': 'bounded fault enumeration with the real ProcessorAir::evaluate_transition (tools/airprobe)', 'status': 'ok',
+           'failures': [], 'undecided': [], 'bounded': True,
+           'bound': '5 programs covering 77 operations (field, u32, stack manipulation, system, memory, control flow); every row pair of the real traces; each of the 21 cells s0..s15, b0, b1, h0, clk, fmp of the next row incremented by one; an (operation, cell) pair counts as enforced when at least one occurrence is rejected'}
+    binp, err = build_tool(repo, verif, 'airprobe')
+    if binp is None:
+        res['status'] = 'undecided'
+        res['undecided'].append('airprobe does not build against the current tree: ' + err)
+        return res
+    p = subprocess.run([binp], stdout=subprocess.PIPE, stderr=subprocess.PIPE, text=True)
+    m = re.search(r'SUMMARY rows=(\d+) ops=(\d+) pairs=(\d+) unenforced=(\d+) honest_rejected=(\d+)', p.stdout)
+    if not m:
+        res['status'] = 'undecided'
+        res['undecided'].append('airprobe gave no summary (panic?): ' + (p.stdout + p.stderr)[-400:])
+        return res
+    expected = 0
+    for ln in p.stdout.split('\n'):
+        if ln.startswith('HONEST-ROW-REJECTED'):
+            res['failures'].append({'obligation': '%s/bounded/air_cell_coverage#honest-row-rejected' % prop, 'message': 'an honest transition violates a main transition constraint',
+                                    'rendered': ln, 'origins': ['air/src/constraints'], 'failing_input': {'row': ln, 'cmd': '.cache/target/debug/airprobe'}})
+        mm = re.match(r'UNENFORCED (\S+) (\S+)', ln)
+        if not mm:
+            continue
+        op, cell = mm.group(1), mm.group(2)
+        if air_cell_expected(op, cell):
+            expected += 1
+            continue
+        res['failures'].append({'obligation': '%s/bounded/air_cell_coverage#%s:%s' % (prop, op, cell), 'message': 'a wrong value in cell %s after %s satisfies every main transition constraint' % (cell, op),
+                                'rendered': ln, 'origins': ['air/src/constraints/stack/op_flags/mod.rs', 'air/src/constraints/stack/mod.rs'],
+                                'failing_input': {'operation': op, 'cell': cell, 'perturbation': 'next-row cell + 1 on an honest row pair', 'cmd': '.cache/target/debug/airprobe'}})
+    res['expected_unenforced_pairs'] = expected
+    if res['failures']:
+        res['status'] = 'fail'
+    res['wall_s'] = round(time.time() - t0, 1)
+    res['checker_cmd'] = 'tools/airprobe (built against the current tree): %s rows, %s (operation, cell) pairs' % (m.group(1), m.group(3))
+    return res
